@@ -7,7 +7,7 @@ from vlib import *
 TRACE_CFG = "FeeMarketTrace.cfg"
 
 MANIFEST_ENTRY = dict(engine="FeeMarket", design="§4 C17",
-   technique="TLA+ spec FeeMarket.tla with exact BigNum arithmetic: TLC exhaustive check of the piecewise EIP-1559 definition, its bounds and monotonicity in g over the full small input grid and of block sequences of the as-built machine; the same grid, seeded random 64/128-bit points and TLC-simulated / random block sequences - with node operations between blocks: restart on the same database, x/feemarket ExportGenesis -> InitGenesis, ExportAppStateAndValidators -> InitChain on a fresh application, in the ABCI order (no Commit before the first block) and with a Commit - are executed on the real keeper CalculateBaseFee, feemarket BeginBlock/EndBlock and ante GasWantedDecorator, and every real output is validated by TLC against the property layer (trace validation), step by step and against the recorded history (the base fee of a block is the function of the base fee and the gas figure recorded for the previous block)",
+   technique="TLA+ spec FeeMarket.tla with exact BigNum arithmetic: TLC exhaustive check of the piecewise EIP-1559 definition, its bounds and monotonicity in g over the full small input grid and of block sequences of the as-built machine; the same grid, seeded random 64/128-bit points and TLC-simulated / random block sequences - with node operations between blocks: restart on the same database, x/feemarket ExportGenesis -> InitGenesis, ExportAppStateAndValidators -> InitChain on a fresh application, in the ABCI order (no Commit before the first block) and with a Commit, and a software-upgrade plan becoming due so that the next block runs the module's in-place store migrations (x/upgrade BeginBlocker) before the fee market's BeginBlock - are executed on the real keeper CalculateBaseFee, feemarket BeginBlock/EndBlock and ante GasWantedDecorator, and, at the level of the ABCI interface (fresh application per sequence: InitChain, real BeginBlock with all begin blockers, DeliverTx of signed Cosmos / dynamic-fee Cosmos / legacy EIP-712 / Ethereum transactions through the application's ante handler, EndBlock, Commit, restarts and upgrade blocks), and every real output is validated by TLC against the property layer (trace validation), step by step and against the recorded history (the base fee of a block is the function of the base fee and the gas figure recorded for the previous block)",
    text="The statement's piecewise definition (unchanged at g = T, +max(1, base x (g-T)/T/denominator) above, -base x (T-g)/T/denominator clamped at the min gas price below, T = gas limit / elasticity, unlimited = 2^64-1) and the gas-figure clamp max(floor(gasWanted x minGasMultiplier), gasUsed) are written as TLA+ operators over decimal strings. TLC proves bounds and monotonicity (on base >= minGasPrice) for every tuple of the enumerated grid and that the code-shaped model satisfies the definition, explores all block sequences of the model up to the configured length, and then validates every value the real CalculateBaseFee returns for the same grid plus random 64/128-bit inputs (with neighbouring g for monotonicity), and every step of scripted block sequences run through the real BeginBlock, GasWantedDecorator, EndBlock and store commit. Sequences are histories: between two blocks a node may be restarted (new application object on the same database), the module may be re-initialised from its own exported genesis, or the chain may be exported (ExportAppStateAndValidators on a new application object, as the export command does) and a fresh application initialised from the exported document (InitChain), either in the ABCI order InitChain, BeginBlock, ..., Commit or with a Commit right after InitChain. The specification demands that these operations carry the base fee, the gas figure, the parameters and the block gas limit unchanged (step level) and, independently of what the stores say, that the base fee of every block is the function of the base fee and the gas figure RECORDED for the previous block - the figure being computed by the statement's formula from the gas the block's transactions declared and the gas used (history level, ghost variable gh of FeeMarket.tla). A model whose import loses the gas figure must be refuted by TLC (FeeMarket_import_witness.cfg).",
    note="Keeper-level blocks: the block context is built as baseapp.BeginBlock builds it (consensus params from the param store, block gas meter from GetMaximumBlockGas) and gas used is consumed on that meter, but transactions are not executed through DeliverTx. The export/import scenario exports and imports the fee market module's genesis and the consensus parameters (the other modules of the fresh application start from the test genesis); InitChain's uncommitted deliver state is written to the root multistore without a commit, which gives the first block the view baseapp gives it. The statement is taken to be silent when the base fee is disabled, for the first base-fee block (height = EnableHeight), where a division of the formula is undefined (elasticity 0, denominator 0, T = 0 with g > 0: the code panics there, recorded as notes) and for gas quantities beyond MaxInt64. A fractional min gas price may be rounded either way (the code truncates; recorded as a note). Bounded by the constants in specs/FeeMarket_*.cfg; TLC, the Json community module and the BigNum override are trusted.")
 
@@ -20,6 +20,10 @@ REQUIRED_COVER = [
     "export_import:abci-order,fig>0", "export_import:committed,fig>0",
     # the history-level statement spoke about a block that follows each of them, in a region where g matters
     "sequence:g<T,after=commit", "sequence:g>T,after=commit",
+    # a software-upgrade block (in-place store migrations before the fee market's BeginBlock) after a non-empty block
+    "upgrade:from=3,fig>0", "sequence:g<T,after=upgrade", "sequence:g>T,after=upgrade",
+    # transactions of every kind the application's ante handler routes, delivered through DeliverTx in ABCI-level blocks
+    "ante:enabled,tx=cosmos", "ante:enabled,tx=cosmos-dynfee", "ante:enabled,tx=eip712-legacy", "ante:enabled,tx=eth",
     "sequence:g<T,after=restart", "sequence:g<T,after=reinit", "sequence:g<T,after=export_import",
 ]
 
@@ -111,9 +115,10 @@ def run(c):
         json.dump(grid, fh)
     nrandom = 100 if quick else 2000
     nrandcalc = 1500 if quick else 25000
+    nabci = 60 if quick else 600
     out, hv_wall = hv(["feemarket", "--grid", "grid.json", "--scripts", "scripts.json",
                        "--random", str(nrandom), "--blocks", "8" if quick else "25", "--node-ops", "250" if quick else "40",
-                       "--random-calc", str(nrandcalc), "--seed", str(c.seed), "--out", "trace.ndjson"], cwd=wd)
+                       "--abci", str(nabci), "--random-calc", str(nrandcalc), "--seed", str(c.seed), "--out", "trace.ndjson"], cwd=wd)
     m = re.search(r"calc_rows=(\d+) calc_evaluations=(\d+) sequences=(\d+)", out)
     if not m:
         raise Infra("unexpected harness output: " + out[-500:])
@@ -145,9 +150,11 @@ def run(c):
         raise Infra("vacuous run: classes never exercised: %s" % missing)
     if res["spoke"] < rows * (grid["GMax"] + 1) // 2:
         raise Infra("vacuous run: the statement spoke about only %d evaluations" % res["spoke"])
-    if nseq != len(scripts) + nrandom:
+    c.extra["abci_level_sequences"] = nabci
+    if nseq != len(scripts) + nrandom + nabci:
         raise Infra("only %d block sequences executed" % nseq)
     steps = 0
+    nkind = {}
     nbound, sampled = {}, set()
     with open(os.path.join(wd, "trace.ndjson")) as fh:
         for line in fh:
@@ -162,7 +169,14 @@ def run(c):
             o = json.loads(line)
             if o["ev"] != "reset":
                 steps += 1
-                if o["ev"] in ("restart", "reinit", "export_import"):
+                if o["ev"] == "ante" and o["args"]["kind"] != "decorator":
+                    kk = o["args"]["kind"] + (":accepted" if o["ok"] else ":rejected")
+                    nkind[kk] = nkind.get(kk, 0) + 1
+                    if o["ok"] and o["args"]["kind"] not in sampled and o["post"]["tgw"] != "0":
+                        sampled.add(o["args"]["kind"])
+                        c.samples.append({k: o[k] for k in ("ev", "args", "ok", "err")} |
+                                         {"post": {k: o["post"][k] for k in ("baseFee", "bgw", "tgw", "height", "maxGas")}})
+                if o["ev"] in ("restart", "reinit", "export_import", "upgrade"):
                     nbound[o["ev"]] = nbound.get(o["ev"], 0) + 1
                     if o["ev"] not in sampled and o["post"]["bgw"] != "0":
                         sampled.add(o["ev"])
@@ -173,7 +187,11 @@ def run(c):
                                      {"post": {k: o["post"][k] for k in ("baseFee", "bgw", "tgw", "height", "maxGas")}})
     c.extra["sequence_steps"] = steps
     c.extra["node_operations_between_blocks"] = nbound
-    if steps < 20 * nseq:
+    c.extra["transactions_delivered_by_kind"] = nkind
+    for kd in ("cosmos", "cosmos-dynfee", "eip712-legacy", "eth"):
+        if nkind.get(kd + ":accepted", 0) < 10:
+            raise Infra("vacuous run: only %d accepted transactions of kind %s" % (nkind.get(kd + ":accepted", 0), kd))
+    if steps < 18 * nseq:
         raise Infra("vacuous run: only %d sequence steps" % steps)
 
     # 4. verdict: every signature is reproduced alone from its recorded scenario
@@ -201,6 +219,8 @@ def run(c):
         "a fractional min gas price may be rounded to either neighbouring integer",
         "blocks are run at keeper level: real feemarket BeginBlock / ante GasWantedDecorator on a branched context / EndBlock / root multistore commit, with a block context built as baseapp.BeginBlock builds it and gas used consumed on the block gas meter; transactions are not executed through DeliverTx",
         "node operations happen between blocks on committed state: restart = app.NewHaqq on the same MemDB; reinit = feemarket.ExportGenesis -> JSON -> InitGenesis on a store reset to the module defaults; export_import = ExportAppStateAndValidators(feemarket) on a new application object, InitChain of a fresh application on a new MemDB with the exported fee market genesis, consensus parameters and height; uncommitted (ABCI order) or committed",
+        "upgrade = after EndBlock of a block the store is put into the layout of consensus version 3 (parameters copied into the x/params subspace, removed from the module store), the module version map says 3 and a plan with a registered handler (v1.8.2) is scheduled for the next height; the next block runs the x/upgrade BeginBlocker before the fee market's; only the 3 -> 4 migration exists",
+        "ABCI-level sequences: one funded ethsecp256k1 sender, bank MsgSend / value transfer of 1 unit, gas declared by the script, fee twice the required price; a transaction counts as accepted when the sender's sequence advanced (ante handler passed); the block's gas used is observed as the sum over DeliverTx responses of min(gas used, gas wanted), capped at a finite block gas limit; new-style EIP-712 (no extension option) and multi-message Ethereum envelopes are not generated; TLC-generated scripts are replayed at keeper level only (kind decorator), the kinds are drawn by the seeded generator of the harness",
         "parameters are changed through MsgUpdateParams (ValidateBasic + message router) inside a block; consensus max gas through the baseapp parameter store",
         "exhaustive model checking is bounded by the constants in specs/FeeMarket_*.cfg",
     ]
